@@ -60,8 +60,8 @@ func main() {
 		c := chainh.Gen(root.Fork(uint64(id)), id, chainh.ProfC01)
 		obs := chainh.Run(c, clk)
 		rep.Evaluations++
-		_, facts, st16 := chainh.MonitorC16(c, obs)
-		fails, st := chainh.MonitorC01(c, obs, facts)
+		_, _, st16 := chainh.MonitorC16(c, obs)
+		fails, st := chainh.MonitorC01(c, obs, chainh.EntryFacts(c))
 		for _, f := range fails {
 			rep.Fail(c.ID, f.Clause, f.Signature, f.Detail, c)
 		}
